@@ -302,8 +302,16 @@ func writeGroupIni(cmd *Command, group *Group, namespace string, writer io.Write
 	}
 }
 
+// iniNeedsQuote returns whether a string value must be written quoted to be
+// read back unchanged: it contains non-printable characters, has surrounding
+// white space (which the reader trims) or starts with a double quote (which the
+// reader takes for the start of a quoted value).
+func iniNeedsQuote(s string) bool {
+	return !isPrint(s) || s != strings.TrimSpace(s) || (len(s) != 0 && s[0] == '"')
+}
+
 func writeOption(writer io.Writer, optionName string, optionType reflect.Kind, optionKey string, optionValue string, commentOption bool, forceQuote bool) {
-	if forceQuote || (optionType == reflect.String && !isPrint(optionValue)) {
+	if forceQuote || (optionType == reflect.String && iniNeedsQuote(optionValue)) {
 		optionValue = strconv.Quote(optionValue)
 	}
 
